@@ -7,6 +7,7 @@ package multiplex
 
 import (
 	"fmt"
+	"github.com/cbeuw/Cloak/internal/common"
 	"io"
 	"math/rand/v2"
 	"sort"
@@ -27,6 +28,10 @@ type c19Case struct {
 	IdleGap  bool   `json:"idle_gap_then_burst"`
 	Dir      string `json:"direction"` // tx (server->client), rx (client->server), both
 	Method   byte   `json:"method"`
+	// Flood: the peer additionally sends records that the session will drop - "garbage" (does not
+	// decode) or "closed-stream" (genuine frames of a stream that has been closed). They are upload
+	// bytes of the limited user all the same.
+	Flood string `json:"flood,omitempty"`
 }
 
 type c19Ev struct {
@@ -119,6 +124,55 @@ func c19Run(t *testing.T, r *vk.Reporter, id string, c *c19Case) (kind, detail s
 					}
 				}
 			}()
+			if c.Flood != "" && s == 0 {
+				o := vk.PipeOpts{NoCut: true}
+				o.Seg[0], o.Seg[1] = g.segFor(0), g.segFor(1)
+				g.mu.Lock()
+				fp := g.net.NewPipe(o)
+				g.pipes = append(g.pipes, fp)
+				g.mu.Unlock()
+				g.srv.AddConnection(common.NewTLSConn(fp.B))
+				go io.Copy(io.Discard, fp.A)
+				var deadID uint32
+				if c.Flood == "closed-stream" {
+					st, err := g.cli.OpenStream()
+					if err != nil {
+						kind, detail = "harness", err.Error()
+						return
+					}
+					st.Write([]byte("soon closed"))
+					time.Sleep(time.Second)
+					st.Close()
+					time.Sleep(time.Second)
+					deadID = st.id
+				}
+				wg.Add(1)
+				go func() {
+					defer wg.Done()
+					lr := rand.New(rand.NewPCG(nextSeed(), 5))
+					left := c.Volume
+					seq := uint64(1000)
+					for left > 0 {
+						sz := c.Sizes[lr.IntN(len(c.Sizes))]
+						left -= sz
+						var body []byte
+						if c.Flood == "closed-stream" {
+							var tr [8]byte
+							body, _ = g.ref.Encode(vk.RefFrame{StreamID: deadID, Seq: seq, Payload: make([]byte, sz)}, nil, tr)
+							seq++
+						} else {
+							body = make([]byte, sz+14)
+							for i := range body {
+								body[i] = byte(lr.Uint32())
+							}
+						}
+						rec := append([]byte{0x17, 3, 3, byte(len(body) >> 8), byte(len(body))}, body...)
+						if _, err := fp.A.Write(rec); err != nil {
+							return
+						}
+					}
+				}()
+			}
 			for k := 0; k < c.Streams; k++ {
 				st, err := g.cli.OpenStream()
 				if err != nil {
@@ -204,7 +258,7 @@ func c19Run(t *testing.T, r *vk.Reporter, id string, c *c19Case) (kind, detail s
 			for _, e := range evs {
 				total += e.n
 			}
-			if !c.IdleGap {
+			if !c.IdleGap && c.Flood != "closed-stream" { // (that scenario starts with two idle seconds)
 				// backlogged from the first to the last grant: must not be held below the rate
 				T := (evs[len(evs)-1].t - evs[0].t).Seconds()
 				if float64(total) < rate*T*0.99-float64(maxMsg) {
@@ -254,6 +308,18 @@ func TestVerif_C19(t *testing.T) {
 		avg /= len(c.Sizes)
 		// keep the number of records per case around 400 (quick) / 2000 (thorough)
 		c.Volume = min(c.Volume, r.Pick(400, 2000)*avg/(c.Sessions*c.Streams)+1)
+		if i%6 == 4 && c.Dir != "tx" {
+			c.Flood = []string{"garbage", "closed-stream"}[(i/6)%2]
+			if c.Sizes[len(c.Sizes)-1] > rigMax {
+				c.Sizes = []int{1400, 4096}
+			}
+		}
+		if i%12 == 5 {
+			// a rate below one receive buffer with messages far smaller than one second's worth
+			c.Rate = []int64{6000, 9000, 12000}[(i/12)%3]
+			c.Sizes = [][]int{{100}, {1, 100}, {500}}[(i/12)%3]
+			c.Volume = int(c.Rate) * 12 / (c.Sessions * c.Streams)
+		}
 		if i%12 == 11 {
 			c.Rate = 4000 // below the size of one message: the documented literal excess (known finding)
 			c.Sizes = []int{rigMax}
